@@ -18,6 +18,9 @@ CHECKS = {
  "C18": dict(level="fault_enumeration", design="5/C18", technique="deterministic simulation with fault injection: seeded io_uring programs (push/submit/advance/drain/cancel/close/ring drop over 1-2 rings and 1-3 files, latency and page-cache knobs) against the real turmoil-io-uring + turmoil-fs with a harness-owned clock, a host crash injected after every program prefix; oracle = reference file model with effects applied in observed CQE order, latency windows from submit instant, exactly-once accounting of completions",
    text="Per seeded program the crash point is enumerated over every prefix; programs, knobs and drain patterns are sampled by seed. Every CQE is checked against the reference (result, data, timing window, uniqueness) and the final file contents through the synchronous API must equal the model.",
    note="Trusted: fskit reference file model + the ring accounting in props/c18.rs. The harness is the embedder (enters Fs and IoUringHostState with an explicit now). user_data unique per scenario; -EBADF for files closed before reaping is accepted (documented divergence)."),
+ "C20": dict(level="exploration", design="5/C20", technique="deterministic simulation: source tasks and a controller on a hand-written executor whose poll order is the seeded schedule (every interleaving of trigger / create / wait / handle drop / barrier drop is a scenario), reference registry of live barriers in creation order as oracle, progress of every source compared after every poll; plus the synchronous trigger path from turmoil-fs's corruption hook inside a real Sim",
+   text="Seeded exploration of schedules; because the executor is ours, each poll is a step of the reference model and any lost, duplicated, misrouted trigger or wrong suspension is detected at the poll where it happens.",
+   note="Trusted: the reference registry in props/c20.rs and the 40-line executor. trigger_noop is never aimed at a Suspend barrier (documented misuse panic)."),
 }
 def main():
     hooks = subprocess.run(["git","-C","/repo","log","--format=%h","--grep=^chore(verif)"],capture_output=True,text=True).stdout.split()
